@@ -14,4 +14,3 @@ func (c *vfCollector) Complete(t Trace) {
 	defer c.mu.Unlock()
 	c.traces = append(c.traces, t)
 }
-
